@@ -478,4 +478,5 @@ def cases(tier, seed):
         out.append(Case("H04.d", f"pi-{rows}x{cols}", M, "h_pi", {"rows": rows, "cols": cols, "bound": 1}, opts={"hash_mode": "realize", "max_paths": 100000, "max_wall_s": 900}, weight=60.0, validate=4))
     for rows, cols, bound in [(2, 3, 2)] + ([(2, 3, 3), (3, 4, 2), (2, 4, 2)] if big else []):
         out.append(Case("H04.d", f"pi-diag-{rows}x{cols}-b{bound}", M, "h_pi", {"rows": rows, "cols": cols, "bound": bound, "template": "diag"}, opts={"hash_mode": "realize", "max_paths": 100000, "max_wall_s": 900}, weight=60.0, validate=4))
+    out.append(Case("H04.obs", "observed", "pvlib.harness.observed", "h_c04", {}, kind="conc"))
     return out
